@@ -110,7 +110,7 @@ def gen_meta_def(rng, name: str, *, with_requires: bool = False) -> dict:
         for f in d["fields"]:
             f["requires"] = []
     n = len(d["fields"])
-    pos_pool = rng.sample(list(range(1, n + 3)) + [-1, -2], n)
+    pos_pool = rng.sample(list(range(1, n + 3)), n)
     for i, f in enumerate(d["fields"]):
         nm = f["name"]
         style = rng.choice(["flag", "flag", "long", "templ", "bare", "eq"])
@@ -131,6 +131,10 @@ def gen_meta_def(rng, name: str, *, with_requires: bool = False) -> dict:
             f["sep"] = rng.choice([",", ":", " "])
         if f["kind"] in ("optstr", "strd") and rng.random() < 0.2:
             f["allowed_values"] = ["d", "x", "y"]
+    # at most one negative position; -1 is slot n (= number of user fields), which must then be free
+    free = [f for f in d["fields"] if "position" not in f]
+    if free and rng.random() < 0.4 and all(f.get("position") != n for f in d["fields"]):
+        rng.choice(free)["position"] = -1
     return d
 
 
@@ -320,3 +324,292 @@ def probe_submission(cls, a: dict, root: Path, how: str, marker: Path) -> dict:
         res["ran"] = out is not None
         res["out"] = getattr(out, "stdout", None) if out is not None else None
     return res
+
+
+# --------------------------------------------------------------------------------------------------
+# extractors (regenerated tie): call sites on the path to execution, Field-class defaults
+
+
+def _lean_str(s: str) -> str:
+    return '"' + s.replace("\\", "\\\\").replace('"', '\\"').replace("\n", "\\n") + '"'
+
+
+def _function_events(src_file: Path, cls: str, fn: str) -> list[tuple[str, str, bool]]:
+    """Ordered (receiver, attribute, guarded) triples of the calls in `cls.fn`, in evaluation order as far as
+    the AST gives it (arguments before the call).  `guarded` = inside if/for/while/try/nested function/
+    comprehension/boolean operator/conditional expression, i.e. not certain to have completed when a later
+    statement runs.  A name bound by `with K(...) as v` and then called is reported as (K, "__call__").
+    Assignments to attributes are reported as (receiver, attr + "=").  `raise` as ("", "raise")."""
+    import ast
+
+    tree = ast.parse(src_file.read_text())
+    target = None
+    for node in tree.body:
+        if isinstance(node, ast.ClassDef) and node.name == cls:
+            for sub in node.body:
+                if isinstance(sub, (ast.FunctionDef, ast.AsyncFunctionDef)) and sub.name == fn:
+                    target = sub
+    if target is None:
+        raise RuntimeError(f"{src_file}: {cls}.{fn} not found")
+    events: list[tuple[str, str, bool]] = []
+    with_bind: dict[str, str] = {}
+
+    def callee(f) -> tuple[str, str]:
+        if isinstance(f, ast.Name):
+            if f.id in with_bind:
+                return with_bind[f.id], "__call__"
+            return "", f.id
+        if isinstance(f, ast.Attribute):
+            return ast.unparse(f.value), f.attr
+        return ast.unparse(f), "()"
+
+    def expr(e, guarded):
+        if e is None:
+            return
+        if isinstance(e, ast.Call):
+            expr(e.func.value if isinstance(e.func, ast.Attribute) else None, guarded)
+            for x in e.args:
+                expr(x, guarded)
+            for k in e.keywords:
+                expr(k.value, guarded)
+            r, a = callee(e.func)
+            events.append((r, a, guarded))
+        elif isinstance(e, (ast.BoolOp,)):
+            expr(e.values[0], guarded)
+            for x in e.values[1:]:
+                expr(x, True)
+        elif isinstance(e, ast.IfExp):
+            expr(e.test, guarded)
+            expr(e.body, True)
+            expr(e.orelse, True)
+        elif isinstance(e, (ast.Lambda, ast.ListComp, ast.SetComp, ast.DictComp, ast.GeneratorExp)):
+            for x in ast.iter_child_nodes(e):
+                if isinstance(x, ast.expr):
+                    expr(x, True)
+                elif isinstance(x, ast.comprehension):
+                    expr(x.iter, True)
+                    for c in x.ifs:
+                        expr(c, True)
+        elif isinstance(e, ast.expr):
+            for x in ast.iter_child_nodes(e):
+                if isinstance(x, ast.expr):
+                    expr(x, guarded)
+
+    def stmts(body, guarded):
+        for s in body:
+            stmt(s, guarded)
+
+    def stmt(s, guarded):
+        if isinstance(s, (ast.FunctionDef, ast.AsyncFunctionDef, ast.ClassDef)):
+            for d in s.decorator_list:
+                expr(d, guarded)
+            return  # the body of a nested definition does not run here
+        if isinstance(s, ast.If):
+            expr(s.test, guarded)
+            stmts(s.body, True)
+            stmts(s.orelse, True)
+        elif isinstance(s, (ast.For, ast.AsyncFor)):
+            expr(s.iter, guarded)
+            stmts(s.body, True)
+            stmts(s.orelse, True)
+        elif isinstance(s, ast.While):
+            expr(s.test, guarded)
+            stmts(s.body, True)
+            stmts(s.orelse, True)
+        elif isinstance(s, ast.Try):
+            stmts(s.body, True)
+            for h in s.handlers:
+                stmts(h.body, True)
+            stmts(s.orelse, True)
+            stmts(s.finalbody, True)
+        elif isinstance(s, (ast.With, ast.AsyncWith)):
+            for it in s.items:
+                expr(it.context_expr, guarded)
+                if isinstance(it.optional_vars, ast.Name) and isinstance(it.context_expr, ast.Call):
+                    r, a = callee(it.context_expr.func)
+                    with_bind[it.optional_vars.id] = a
+            stmts(s.body, guarded)
+        elif isinstance(s, ast.Raise):
+            expr(s.exc, guarded)
+            events.append(("", "raise", guarded))
+        elif isinstance(s, (ast.Assign, ast.AnnAssign, ast.AugAssign)):
+            expr(s.value, guarded)
+            tgts = s.targets if isinstance(s, ast.Assign) else [s.target]
+            for t in tgts:
+                if isinstance(t, ast.Attribute):
+                    events.append((ast.unparse(t.value), t.attr + "=", guarded))
+        elif isinstance(s, ast.Return):
+            expr(s.value, guarded)
+            events.append(("", "return", guarded))
+        elif isinstance(s, ast.Match):
+            expr(s.subject, guarded)
+            for c in s.cases:
+                stmts(c.body, True)
+        else:
+            for x in ast.iter_child_nodes(s):
+                if isinstance(x, ast.expr):
+                    expr(x, guarded)
+
+    stmts(target.body, False)
+    return events
+
+
+CALLSITE_FUNCS = [
+    ("taskCall", "pydra/compose/base/task.py", "Task", "__call__"),
+    ("checkRules", "pydra/compose/base/task.py", "Task", "_check_rules"),
+    ("submitterCall", "pydra/engine/submitter.py", "Submitter", "__call__"),
+    ("submitterSubmit", "pydra/engine/submitter.py", "Submitter", "submit"),
+    ("jobInit", "pydra/engine/job.py", "Job", "__init__"),
+    ("jobRun", "pydra/engine/job.py", "Job", "run"),
+]
+
+
+def extract_call_sites(ctx=None):
+    """lean/PydraModel/Gen/RulesCallSites.lean: ordered call events of the functions between `Task.__call__` and the
+    task body, read from the current source."""
+    from harness import core
+
+    lines = [
+        "/- GENERATED by harness/engines/rules.py:extract_call_sites from the working tree of the repository. Do not edit. -/",
+        "namespace PydraModel.Gen.RulesCallSites",
+        "",
+        "/-- (receiver, attribute, guarded): see `_function_events` in harness/engines/rules.py -/",
+        "abbrev RawEv := String × String × Bool",
+        "",
+    ]
+    for lean_name, rel, cls, fn in CALLSITE_FUNCS:
+        evs = _function_events(core.REPO / rel, cls, fn)
+        if not evs:
+            raise RuntimeError(f"no events extracted from {cls}.{fn}")
+        lines.append(f"/-- `{cls}.{fn}` ({rel}) -/")
+        lines.append(f"def {lean_name} : List RawEv := [")
+        lines.append(",\n".join(f"  ({_lean_str(r)}, {_lean_str(a)}, {'true' if g else 'false'})" for r, a, g in evs))
+        lines.append("]")
+        lines.append("")
+    lines.append("end PydraModel.Gen.RulesCallSites")
+    out = core.LEAN / "PydraModel" / "Gen" / "RulesCallSites.lean"
+    core.write_if_changed(out, "\n".join(lines) + "\n")
+    return [out]
+
+
+# --------------------------------------------------------------------------------------------------
+# C32: attribute values as the Roundtrip model sees them
+
+FIELD_CLASSES = [
+    ("shell.arg", "pydra.compose.shell", "arg"),
+    ("shell.out", "pydra.compose.shell", "out"),
+    ("shell.outarg", "pydra.compose.shell", "outarg"),
+    ("python.arg", "pydra.compose.python", "arg"),
+    ("python.out", "pydra.compose.python", "out"),
+]
+
+_ADDR = re.compile(r" at 0x[0-9a-fA-F]+")
+
+
+def encode_val(attr: str, v):
+    """JSON form of an attribute value: null / bool / int / str / {"strs": […]} / {"reqs": […]} / {"atom": tag}.
+    Types, callables, enums and sentinels are opaque atoms identified by a stable tag."""
+    import enum
+    import inspect
+
+    import attrs
+
+    from pydra.compose.base.field import NO_DEFAULT, Requirement, RequirementSet
+
+    if isinstance(v, attrs.Factory):
+        v = v.factory()
+    if v is None or isinstance(v, (bool, int, str)) and not isinstance(v, enum.Enum):
+        return v
+    if v is NO_DEFAULT:
+        return {"atom": "NO_DEFAULT"}
+    if v is attrs.NOTHING:
+        return {"atom": "NOTHING"}
+    if attr == "requires":
+        out = []
+        for rs in v:
+            if not isinstance(rs, RequirementSet) or not all(isinstance(r, Requirement) for r in rs.requirements):
+                raise RuntimeError(f"requires holds {rs!r}")
+            out.append([[r.name, None if r.allowed_values is None else [str(x) for x in r.allowed_values]] for r in rs.requirements])
+        return {"reqs": out}
+    if isinstance(v, (list, tuple, set, frozenset)) and all(isinstance(x, str) for x in v):
+        return {"strs": sorted(v) if isinstance(v, (set, frozenset)) else list(v)}
+    if isinstance(v, enum.Enum):
+        return {"atom": f"enum:{type(v).__qualname__}.{v.name}"}
+    if isinstance(v, type) or getattr(v, "__module__", None) in ("typing", "types") or hasattr(v, "__origin__"):
+        return {"atom": "type:" + str(v)}
+    if inspect.isfunction(v) or inspect.isclass(v) or inspect.ismethod(v):
+        return {"atom": f"fn:{v.__module__}.{v.__qualname__}"}
+    return {"atom": "obj:" + _ADDR.sub("", repr(v))}
+
+
+def _lean_val(j) -> str:
+    if j is None:
+        return ".none"
+    if isinstance(j, bool):
+        return f".bool {'true' if j else 'false'}"
+    if isinstance(j, int):
+        return f".int ({j})"
+    if isinstance(j, str):
+        return f".str {_lean_str(j)}"
+    if "atom" in j:
+        return f".atom {_lean_str(j['atom'])}"
+    if "strs" in j:
+        return ".strs [" + ", ".join(_lean_str(s) for s in j["strs"]) + "]"
+    if "reqs" in j:
+        if j["reqs"]:
+            raise RuntimeError("non-empty requires default")
+        return ".reqs []"
+    raise RuntimeError(f"cannot render {j!r}")
+
+
+def extract_field_defaults(ctx=None):
+    """lean/PydraModel/Gen/FieldDefaults.lean: attribute names and class defaults of the field classes, read from the
+    running interpreter (`attrs.fields`)."""
+    import importlib
+
+    import attrs
+
+    from harness import core
+
+    core.assert_repo_loaded()
+    lines = [
+        "/- GENERATED by harness/engines/rules.py:extract_field_defaults from the running interpreter (attrs.fields of the",
+        "   field classes of the repository's working tree). Do not edit. -/",
+        "namespace PydraModel.Gen.FieldDefaults",
+        "",
+        "inductive RawVal where",
+        "  | atom (tag : String) | none | bool (b : Bool) | int (i : Int) | str (s : String)",
+        "  | strs (l : List String) | reqs (r : List (List (String × Option (List String))))",
+        "  deriving DecidableEq, Repr",
+        "",
+        "/-- (class, [(attribute, default)]) in `attrs.fields` order -/",
+        "def classes : List (String × List (String × RawVal)) := [",
+    ]
+    blocks = []
+    for tag, modname, clsname in FIELD_CLASSES:
+        cls = getattr(importlib.import_module(modname), clsname)
+        rows = []
+        for a in attrs.fields(cls):
+            rows.append(f"    ({_lean_str(a.name)}, {_lean_val(encode_val(a.name, a.default))})")
+        if not rows:
+            raise RuntimeError(f"{tag}: no attributes")
+        blocks.append(f"  ({_lean_str(tag)}, [\n" + ",\n".join(rows) + "])")
+    lines.append(",\n".join(blocks))
+    lines.append("]")
+    lines.append("")
+    # defaults of the nested requirement classes (what `attrs.asdict(recurse=True)` filters inside `requires`)
+    from pydra.compose.base.field import Requirement, RequirementSet
+
+    ra = {a.name: a for a in attrs.fields(Requirement)}
+    rsa = {a.name: a for a in attrs.fields(RequirementSet)}
+    if set(ra) != {"name", "allowed_values"} or set(rsa) != {"requirements"}:
+        raise RuntimeError(f"Requirement / RequirementSet attributes changed: {sorted(ra)} {sorted(rsa)}")
+    lines.append("/-- attribute names of `RequirementSet` and `Requirement` (keys of the nested dictionaries) -/")
+    lines.append(f"def requirementSetKeys : List String := [{', '.join(_lean_str(k) for k in rsa)}]")
+    lines.append(f"def requirementKeys : List String := [{', '.join(_lean_str(a.name) for a in attrs.fields(Requirement))}]")
+    lines.append(f"def requirementAllowedDefault : RawVal := {_lean_val(encode_val('allowed_values', ra['allowed_values'].default))}")
+    lines.append("")
+    lines.append("end PydraModel.Gen.FieldDefaults")
+    out = core.LEAN / "PydraModel" / "Gen" / "FieldDefaults.lean"
+    core.write_if_changed(out, "\n".join(lines) + "\n")
+    return [out]
